@@ -273,6 +273,9 @@ func runC04(c *report.Ctx) {
 	ruleChildNumberRoles(c)
 	ruleWipedCacheDropped(c)
 	ruleNextIndexFromTx(c)
+
+	// ---- stored entropy keeps its width (export → import re-derives the mnemonic from it) ------------------------
+	ruleBigIntBytes(c, pkgKeystore, 3, map[string]bool{an.Module + "/masswallet/keystore.padByteSlice": true, "(*math/big.Int).SetBytes": true}, nil)
 }
 
 func kindOnly(os []string) string {
